@@ -1050,6 +1050,20 @@ def _index_lists(p):
     return out
 
 
+def _trial(cx, fn):
+    """True when fn() reports nothing; whatever it reports is discarded."""
+    seen = []
+    real_fail, real_failed = cx.fail, cx.failed
+    cx.failed = list(real_failed)
+    cx.fail = lambda sym, *a, **k: (seen.append(sym), cx.failed.append(sym))[0]
+    try:
+        fn()
+    finally:
+        del cx.fail
+        cx.failed = real_failed
+    return not seen
+
+
 def judge_submesh(cx, res, want, append, only_wt, opt):
     """One result of submesh against the requested (non-empty) face lists."""
     T = cx.T
@@ -1064,11 +1078,20 @@ def judge_submesh(cx, res, want, append, only_wt, opt):
         j = 0
         for piece in res:
             nfp = len(piece.faces)
-            while j < len(want) and not _piece_matches(T, piece, want[j]):
-                j += 1
-            if j >= len(want):
+            cands = [jj for jj in range(j, len(want)) if _piece_matches(T, piece, want[jj])]
+            if not cands:
                 cx.fail("piece_unknown", "a returned submesh is not one of the requested face sets (in order)", {"faces": int(nfp)}, opt)
                 break
+            j = cands[0]
+            if len(cands) > 1:
+                # repeated faces: several requests start with the same triangles and the dropped
+                # ones cannot be told from the survivor by position.  The piece is judged as the
+                # first request it is consistent with (as the first one when consistent with none)
+                for jj in cands:
+                    if _trial(cx, lambda: check_piece(cx, piece, want[jj], opt, prefix_only=True)):
+                        j = jj
+                        break
+                cx.run.count("submesh_piece_ambiguous")
             check_piece(cx, piece, want[j], opt, prefix_only=True)
             if nfp != len(want[j]):
                 cx.run.count("submesh_holes_filled")
